@@ -998,7 +998,7 @@ def _simplify_function_call(call: HplFunctionCall) -> HplExpression:
 
 def _simplify_function_sum(call: HplFunctionCall) -> HplExpression:
     arg: HplExpression = _simplify(call.arguments[0])
-    if isinstance(arg, HplSet):
+    if isinstance(arg, HplSet) and all(v.can_be_number for v in arg.values):
         variables: List[HplExpression] = []
         literals: List[Union[int, float]] = []
         for v in arg.values:
@@ -1025,7 +1025,7 @@ def _simplify_function_sum(call: HplFunctionCall) -> HplExpression:
 
 def _simplify_function_prod(call: HplFunctionCall) -> HplExpression:
     arg: HplExpression = _simplify(call.arguments[0])
-    if isinstance(arg, HplSet):
+    if isinstance(arg, HplSet) and all(v.can_be_number for v in arg.values):
         variables: List[HplExpression] = []
         literals: List[Union[int, float]] = []
         for v in arg.values:
